@@ -240,5 +240,5 @@ A_C03_Immutable == [][Act_C03_Immutable]_mvars
 
 Done == Len(hist) = MaxSteps \/ Len(order) > MaxBlocks
 View == << blocks, order, utxo, byHeight, tips, head, validated, snap >>     \* hides hist
-Emit == (EmitHist /\ Done) => PrintT(<< "HIST", ToJson(hist) >>)
+Emit == (EmitHist /\ Done) => PrintT(ToJson(<< "HIST", hist >>))
 =============================================================================
